@@ -277,6 +277,65 @@ theorem connect_dropped_frees_slot (d : Disp) (addr token : Nat) (slots : List (
   refine ⟨?_, (slotPop_some _ _ _ _ hp).2.2⟩
   simp [onControl, hs, hp]
 
+/-! ### No starvation -/
+
+theorem cleanupLoop_effs_prefix (fuel : Nat) (d : Disp) (effs : List Eff) :
+    ∃ more, (cleanupLoop fuel d effs).2 = effs ++ more := by
+  induction fuel generalizing d effs with
+  | zero => exact ⟨[], by simp [cleanupLoop]⟩
+  | succ n ih =>
+    unfold cleanupLoop
+    split
+    · exact ⟨[], by simp⟩
+    · dsimp only
+      split
+      · exact ⟨[], by simp⟩
+      · split
+        · rename_i d2 e _; obtain ⟨m, hm⟩ := ih d2 (effs ++ e); exact ⟨e ++ m, by rw [hm, List.append_assoc]⟩
+        · rename_i a' d2 e _; obtain ⟨m, hm⟩ := ih { d2 with nextAcceptor := some a' } (effs ++ e); exact ⟨e ++ m, by rw [hm, List.append_assoc]⟩
+        · rename_i s' d2 e _; obtain ⟨m, hm⟩ := ih { d2 with syns := s' :: d2.syns } (effs ++ e); exact ⟨e ++ m, by rw [hm, List.append_assoc]⟩
+        · rename_i s' a' d2 e _; exact ⟨e, rfl⟩
+
+/-- **Later calls are not starved**: when the oldest cached request is valid (its key is free), the table has room
+and the accept call at the head of the queue is alive, the very next loop iteration hands that request to that
+call - whatever else is queued behind them. -/
+theorem cleanup_serves_oldest_request_first (d : Disp) (s : Syn) (rest : List Syn) (a : Acceptor)
+    (hs : d.syns = s :: rest) (ha : d.nextAcceptor = some a) (hnf : d.streamsFull = false)
+    (hk : d.hasKey { addr := s.remote, id := w16 (s.h.connId + 1) } = false)
+    (halive : d.deadAcc.contains a.id = false) :
+    ∃ inst more, d.cleanupAcceptQueue.2 =
+      Eff.accepted a.id { addr := s.remote, id := w16 (s.h.connId + 1) } s.remote inst :: more := by
+  unfold cleanupAcceptQueue
+  simp only [hnf, Bool.false_eq_true, if_false]
+  have hfuel : d.syns.length + d.acceptorsWaiting + 1 = (rest.length + d.acceptorsWaiting + 1) + 1 := by
+    rw [hs]; simp only [List.length_cons]; omega
+  rw [hfuel]
+  unfold cleanupLoop
+  simp only [hs]
+  have hta : ({ d with syns := rest } : Disp).tryNextAcceptor = (some a, { ({ d with syns := rest } : Disp) with nextAcceptor := none }) := by
+    simp [tryNextAcceptor, ha]
+  rw [hta]
+  dsimp only
+  have hrand : ∀ x : Disp, x.random.2.deadAcc = x.deadAcc ∧ x.random.2.streams = x.streams ∧ x.random.2.nextInst = x.nextInst := by
+    intro x; unfold random; split <;> exact ⟨rfl, rfl, rfl⟩
+  have hm : ∃ d2 inst, ({ ({ d with syns := rest } : Disp) with nextAcceptor := none } : Disp).matchSynWithAccept s a =
+      (.matched, d2, [Eff.accepted a.id { addr := s.remote, id := w16 (s.h.connId + 1) } s.remote inst]) := by
+    unfold matchSynWithAccept
+    have hf' : ({ ({ d with syns := rest } : Disp) with nextAcceptor := none } : Disp).streamsFull = false := hnf
+    have hk' : ({ ({ d with syns := rest } : Disp) with nextAcceptor := none } : Disp).hasKey { addr := s.remote, id := w16 (s.h.connId + 1) } = false := hk
+    simp only [hf', Bool.false_eq_true, if_false, hk']
+    generalize hr : ({ ({ d with syns := rest } : Disp) with nextAcceptor := none } : Disp).random = r
+    obtain ⟨sq, d'⟩ := r
+    have := hrand ({ ({ d with syns := rest } : Disp) with nextAcceptor := none } : Disp)
+    rw [hr] at this
+    have hd : d'.deadAcc.contains a.id = false := by rw [this.1]; exact halive
+    simp only [hd, Bool.false_eq_true, if_false]
+    exact ⟨_, _, rfl⟩
+  obtain ⟨d2, inst, hm⟩ := hm
+  rw [hm]
+  obtain ⟨more, hmore⟩ := cleanupLoop_effs_prefix (rest.length + d.acceptorsWaiting + 1) d2 ([] ++ [Eff.accepted a.id { addr := s.remote, id := w16 (s.h.connId + 1) } s.remote inst])
+  exact ⟨inst, more, by rw [hmore]; rfl⟩
+
 /-! ### One stream per handshake -/
 
 /-- **A duplicate of a SYN whose connection is live creates no second stream**: the acceptor is kept for the
